@@ -1,6 +1,6 @@
 """property id -> check function"""
 import json
-from . import p_fs, p_plan, p_names, p_e2e, p_det
+from . import p_fs, p_plan, p_names, p_e2e, p_det, p_migrate
 
 CHECKS = {
     "C01": p_plan.check_c01,
@@ -15,6 +15,7 @@ CHECKS = {
     "C10": p_plan.check_c10,
     "C11": p_det.check_c11,
     "C12": p_names.check_c12,
+    "C13": p_migrate.check_c13,
     "C15": p_fs.check_c15,
     "C16": p_fs.check_c16,
 }
